@@ -86,6 +86,13 @@ def gen_recipe(rng, vals):
         r = min(left, rng.choice([1, 2, left]))
         cols.append(r)
         left -= r
+    if rng.random() < 0.25:
+        # integers a double cannot hold exactly (long identifiers, 64-bit keys)
+        cells = [c for r in rows for c in r["cells"] if c["v"] is not None]
+        for c in rng.sample(cells, min(len(cells), 2)):
+            c["v"] = rng.choice([2**53 + 1, 9007199254740993, -(2**53) - 1, 2**64 + 1, 12345678901234567891, 10**30 + 7])
+        if cells:
+            flags.add("big-int")
     return {"cols": cols, "rows": rows}, flags
 
 
@@ -156,7 +163,7 @@ def diff_vals(a, b):
     return dict(list(out.items())[:8])
 
 
-OPS = ["transpose", "transpose_area", "rstrip", "rstrip_aggressive", "optimize_width", "set_span", "set_span_merge", "del_span", "csv"]
+OPS = ["transpose", "transpose_area", "rstrip", "rstrip_aggressive", "optimize_width", "set_span", "set_span_merge", "del_span", "csv", "foreign_span_form"]
 
 
 def gen_op(rng, s: Snap):
@@ -302,6 +309,23 @@ def apply_and_judge(t, op, before: Snap):
                 out.append(("del_span:span-not-removed-exactly", {"at": [x, y], "covered_left": sorted(a.covered & rect)[:6], "spans": sorted(a.spans.items())}))
             if not same_vals(a.vals, before.vals):
                 out.append(("del_span:values-changed", {"diff": diff_vals(before.vals, a.vals)}))
+    elif o == "foreign_span_form":
+        # the same spans as another producer writes them: a span count of 1 is the default and is left out
+        # (a head may carry only number-rows-spanned, or only number-columns-spanned)
+        TNS = "{urn:oasis:names:tc:opendocument:xmlns:table:1.0}"
+        n_changed = 0
+        for cell in t._Element__element.iter(TNS + "table-cell"):
+            cs, rs = cell.get(TNS + "number-columns-spanned"), cell.get(TNS + "number-rows-spanned")
+            if cs == "1" and rs not in (None, "1"):
+                del cell.attrib[TNS + "number-columns-spanned"]
+                n_changed += 1
+            elif rs == "1" and cs not in (None, "1"):
+                del cell.attrib[TNS + "number-rows-spanned"]
+                n_changed += 1
+        a = Snap(t)
+        if a.spans != before.spans or a.covered != before.covered or not same_vals(a.vals, before.vals):
+            out.append(("harness:foreign-span-form-changed-the-census", {}))
+        outcome = "rewritten" if n_changed else "nothing-to-rewrite"
     elif o == "csv":
         if before.spans or before.covered or before.W < 2 or before.H < 1 or not before.vals:
             return out, "skipped", None
